@@ -28,6 +28,10 @@ def curated():
         ranges=['S!A2:A3', 'S!B1:B3'])
     add('unbounded', S({'A1': 1, 'A2': 2, 'A3': 3, 'B1': '=SUM(A:A)', 'B2': '=SUM(3:3)', 'C3': 5}),
         unbounded=['S!A:A', 'S!3:3'], ranges=['S!A1:A3'])
+    add('bounded_and_unbounded', S({'A1': 1, 'A2': 2, 'A3': 3, 'E1': '=SUM(A1:A3)', 'F1': '=SUM(A:A)', 'G1': '=E1+F1'}),
+        unbounded=['S!A:A'], ranges=['S!A1:A3'], inputs=['S!A1', 'S!A3'])
+    add('cse2', S({'A1': 1, 'A2': 2, 'D1:D2': {'array': '=A1:A2*2'}, 'B1:B2': {'array': '=D1:D2+1'}, 'F1': '=SUM(B1:B2)'}),
+        ranges=['S!B1:B2', 'S!D1:D2'], tags=['cse'])
     add('two_sheets', {'sheets': {'S': {'A1': "='Sheet 1'!A1+1", 'B1': "=SUM('Sheet 1'!A1:A2)"},
                                   'Sheet 1': {'A1': 5, 'A2': 6}}, 'active': 'S'},
         ranges=['Sheet 1!A1:A2'])
@@ -51,6 +55,13 @@ def curated():
         ranges=['S!A1:A2'])
     add('mixed_range', S({'A1': 1, 'A2': 'x', 'A3': True, 'B1': '=SUM(A1:A3)', 'B2': '=COUNT(A1:A3)',
                           'B3': '=COUNTIF(A1:A3,"x")', 'C1': '=A1+A3'}), ranges=['S!A1:A3'])
+    add('range_of_formulas', S({'A1': 1, 'A2': '=A1+1', 'A3': '=A2*2', 'B1': '=SUM(A1:A3)', 'C1': '=B1+1',
+                                'D1': '=VLOOKUP(2,A1:A3,1,FALSE)'}), ranges=['S!A1:A3'], inputs=['S!A1'])
+    add('zero_results', S({'A1': 5, 'B1': '=A1-5', 'C1': '=A1>9', 'D1': '=B1+1', 'E1': '=IF(C1,1,"no")', 'F1': '=A1&""'}),
+        ranges=['S!B1:D1'])
+    add('sheet_range_name', {'sheets': {'S': {'A1': '=SUM(tbl)', 'B1': "=INDEX('D 2'!A1:B2,2,1)+A1", 'C1': '=COUNTIF(tbl,">1")'},
+                                        'D 2': {'A1': 1, 'B1': 2, 'A2': 3, 'B2': 4}}, 'active': 'S',
+                             'names': {'tbl': ['D 2', '$A$1:$B$2']}}, ranges=['D 2!A1:B2'], inputs=['D 2!A1', 'D 2!B2'])
     for f in fam:
         if f['inputs'] is None:
             f['inputs'] = W.constant_cells(f['spec'])
